@@ -52,14 +52,19 @@ Record facts := {
   f_skip_before_append : bool;  (* in _pack the `continue` for an excluded field precedes values.append *)
   f_grp_accepts : bool;         (* GroupedRecord._pack has an excluded_fields parameter *)
   f_grp_forwards : bool;        (* ... and hands it to every member's _pack *)
-  f_ctx_finally : bool;         (* ignore_fields_for_comparison restores the global in a `finally` *)
+  f_ctx_exception : bool;       (* ignore_fields_for_comparison puts the previous set back when the scope ends with
+                                   an Exception, *)
+  f_ctx_base_exception : bool;  (* ... with a BaseException that is no Exception (KeyboardInterrupt, SystemExit), *)
+  f_ctx_generator_exit : bool;  (* ... when a suspended generator holding the scope is closed or collected, *)
+  f_ctx_control : bool;         (* ... and when control leaves the block by return / break / continue *)
   f_hashable_defined : bool;    (* GroupedRecord does not set __hash__ = None / define __eq__ without __hash__ *)
   f_reserved : list string      (* RESERVED_FIELDS, in order *)
 }.
 
 Definition facts_ok (F : facts) : bool :=
   f_eq_ign_left F && f_eq_ign_right F && f_eq_isinstance_guard F && f_eq_descriptors F && f_ne_default F && f_hash_ign F &&
-  f_hash_deep F && f_hash_dict_unordered F && f_skip_before_append F && f_grp_accepts F && f_grp_forwards F && f_ctx_finally F &&
+  f_hash_deep F && f_hash_dict_unordered F && f_skip_before_append F && f_grp_accepts F && f_grp_forwards F && f_ctx_exception F &&
+  f_ctx_base_exception F && f_ctx_generator_exit F && f_ctx_control F &&
   f_hashable_defined F.
 
 (* ---------- generic list helpers (the function parameter stays outside the `fix` so that they can be used
@@ -259,14 +264,33 @@ Definition rec_hash (ign : list string) (r : pval) : option Z :=
   else if frozen (hkey ign r) then Some (Hs (hkey ign r)) else None.
 
 (* ---------- the ignore set as global state ---------- *)
-(* a body runs with the global set to [xs]; it may change the global again and ends normally or by raising *)
-Definition body := list string -> list string * bool.     (* global at entry -> (global at exit, raised) *)
+(* the ways a `with` block can end *)
+Inductive exit_kind :=
+| ExNormal                (* falls off the end *)
+| ExException             (* an Exception subclass propagates (also one raised by a comparison inside the scope) *)
+| ExBaseException         (* KeyboardInterrupt / SystemExit propagates *)
+| ExGeneratorExit         (* the scope sits in a suspended generator that is closed or garbage-collected *)
+| ExControl.              (* return / break / continue out of the block *)
 
-(* with ignore_fields_for_comparison(xs): body   -- returns (global afterwards, an exception propagates) *)
-Definition with_ignore (xs : list string) (b : body) (g : list string) : list string * bool :=
+Definition restores (k : exit_kind) : bool :=
+  match k with
+  | ExNormal => true
+  | ExException => f_ctx_exception F
+  | ExBaseException => f_ctx_base_exception F
+  | ExGeneratorExit => f_ctx_generator_exit F
+  | ExControl => f_ctx_control F
+  end.
+
+(* a body runs with the global set to [xs]; it may change the global again (set_ignored_fields_for_comparison,
+   further scopes) and ends in one of the ways above *)
+Definition body := list string -> list string * exit_kind.     (* global at entry -> (global at exit, how it ended) *)
+
+(* with ignore_fields_for_comparison(xs): body   -- returns (global afterwards, how the block ended: an exception
+   keeps propagating) *)
+Definition with_ignore (xs : list string) (b : body) (g : list string) : list string * exit_kind :=
   let orig := g in
-  let '(g', raised) := b xs in
-  if raised then ((if f_ctx_finally F then orig else g'), true) else (orig, false).
+  let '(g', k) := b xs in
+  ((if restores k then orig else g'), k).
 
 End Model.
 
